@@ -99,6 +99,7 @@ func (s *PrintCtx) set(e *Entry, lvl Level, timestamp time.Time, stackFrame uint
 	s.stackFrame = stackFrame
 	s.msg = msg
 	s.kvps = kvps
+	s.clr, s.bg = clrBasic, clrNone // a pooled object still carries the colours of its last record
 }
 
 //
